@@ -62,6 +62,8 @@ def run(tier):
                     tot[k] = tot.get(k, 0) + v
     # determinism: the first seed twice, identical output lines
     again = miri(seeds[0])
+    if again["stats"] is None and not again["violations"] and not again["ub"]:
+        again = miri(seeds[0])
     det = (again["stats"], again["violations"]) == (first["stats"], first["violations"])
     viol = [r for r in res if r["violations"]]
     rc = 0
